@@ -269,7 +269,16 @@ func SessionC15(t *tape.Tape) *core.RunResult {
 	}
 	read()
 	// liveness after the last fault: once halted (or limited), the channel closes when everything runs
-	if !closed && (haltRequested || limit > 0 || hardFired) {
+	// under a time control the analysis must end once the hard limit has passed on the simulated clock
+	// (whether or not a timer task was ever seen: a limit that is never armed must not go unnoticed)
+	tcExpired := haveTC && time.Since(start) > hard
+	if haveTC && !tcExpired && !closed && !haltRequested && limit == 0 {
+		time.Sleep(hard + time.Millisecond)
+		res.SimNanos += int64(hard)
+		tcExpired = true
+		res.Fault("clock-jump")
+	}
+	if !closed && (haltRequested || limit > 0 || hardFired || tcExpired) {
 		for r := 0; r < 400 && !closed && !k.OverBudget(); r++ {
 			k.Wait()
 			ps := k.Parked()
@@ -284,7 +293,7 @@ func SessionC15(t *tape.Tape) *core.RunResult {
 			read()
 		}
 		if !closed && !k.OverBudget() {
-			return fail("search-does-not-end", "limit=%d halt requested=%v hard timer fired=%v: the PV channel is still open after a settle phase in which every task ran", limit, haltRequested, hardFired)
+			return fail("search-does-not-end", "limit=%d halt requested=%v hard timer fired=%v hard limit (%v) passed on the clock=%v: the PV channel is still open after a settle phase in which every task ran", limit, haltRequested, hardFired, hard, tcExpired)
 		}
 	}
 	// (1) reported depths and contents
